@@ -378,10 +378,20 @@ func (r *Rig) ApplyScripts(t Topo) {
 // Ctl records the call before invoking and the return after the reply.
 func (r *Rig) Ctl(op, arg string, f func() error) error {
 	id := int(r.callSeq.Add(1))
-	r.Log.Append(Ev{Kind: KCtl, Op: op, Arg: arg, Call: id})
+	// Note carries the status the API would REPORT (in-memory) at the call and at the return
+	r.Log.Append(Ev{Kind: KCtl, Op: op, Arg: arg, Call: id, Note: r.reported(arg)})
 	err := f()
-	r.Log.Append(Ev{Kind: KCtlRet, Op: op, Arg: arg, Call: id, Err: errString(err)})
+	r.Log.Append(Ev{Kind: KCtlRet, Op: op, Arg: arg, Call: id, Err: errString(err), Note: r.reported(arg)})
 	return err
+}
+
+// reported returns the in-memory status of pipeline id ("" if arg is not a pipeline id).
+func (r *Rig) reported(id string) string {
+	p, err := r.Pipes.Get(context.Background(), id)
+	if err != nil {
+		return ""
+	}
+	return p.GetStatus().String()
 }
 
 func (r *Rig) Start(ctx context.Context, id string) error {
